@@ -413,6 +413,20 @@ def rule_partial(rep: Report, rid="C01.partial") -> None:
                         okr = repl[0] == "call" and repl[1] in (".replace", "re.sub") and any(is_const(a) and "\\" in str(a[1]) for a in repl[2])
                     rep.ob(rid + ".regex", "a re.sub replacement is a constant, a function, or has its backslashes escaped (data is never a replacement template)", okr,
                            file=file[0], line=n[3], function=file[1], expected="literal replacement", found=fmt(repl, I)[:120])
+    # the same for the methods of compiled patterns the analysis keeps symbolic (a pattern held in a table, made per call ...):
+    # ``<pattern>.sub(repl, text)`` / ``.subn`` / ``<match>.expand(template)``
+    nsub = 0
+    for label, I, tree, fi in nfs:
+        for n, ctx in nf.iter_nodes(tree):
+            if n[0] == "mcall" and n[1] in ("sub", "subn", "expand") and n[3]:
+                repl = n[3][0]
+                nsub += 1
+                okr = is_const(repl) or repl[0] in ("lambda", "func", "localfunc", "bound", "partial") or (repl[0] == "call" and repl[1] == "re.escape")
+                if not okr and isinstance(repl, tuple):
+                    okr = repl[0] == "call" and repl[1] in (".replace", "re.sub") and any(is_const(a) and "\\" in str(a[1]) for a in repl[2])
+                rep.ob(rid + ".regex", "a pattern's sub() replacement is a constant, a function, or has its backslashes escaped (data is never a replacement template)", okr,
+                       file=fi.file if fi is not None else None, line=n[4], function=label, expected="literal replacement", found=fmt(repl, I)[:120])
+    rep.counts["symbolic pattern.sub() sites"] = nsub
     for key in sorted(ast_sites):
         got = seen.get(key)
         if got is None:
@@ -673,7 +687,16 @@ def rule_partial(rep: Report, rid="C01.partial") -> None:
         for n in walk_no_nested_defs(fi.node):
             if isinstance(n, ast.Call) and isinstance(n.func, ast.Name) and n.func.id == "next":
                 nn += 1
-                rep.ob(rid + ".next", "next() is always given a default (exhaustion cannot raise StopIteration)", len(n.args) >= 2, file=fi.file, line=n.lineno,
+                endless = False
+                a0 = n.args[0] if n.args else None
+                if isinstance(a0, ast.Attribute) and isinstance(a0.value, ast.Name) and fi.cls is not None and fi.params() and a0.value.id == fi.params()[0]:
+                    # an attribute of the object itself that is only ever bound to an endless library iterator (itertools.count /
+                    # cycle / repeat without a bound) cannot be exhausted
+                    binds = [v for m_ in fi.cls.all_methods() for x in ast.walk(m_.node) if isinstance(x, (ast.Assign, ast.AnnAssign)) and getattr(x, "value", None) is not None
+                             for t in (x.targets if isinstance(x, ast.Assign) else [x.target]) if isinstance(t, ast.Attribute) and t.attr == a0.attr for v in [x.value]]
+                    endless = bool(binds) and all(isinstance(v, ast.Call) and (xdotted(v.func, fi.module) in ("itertools.count", "itertools.cycle")
+                                                                                  or (xdotted(v.func, fi.module) == "itertools.repeat" and len(v.args) == 1 and not v.keywords)) for v in binds)
+                rep.ob(rid + ".next", "next() is always given a default (exhaustion cannot raise StopIteration)", len(n.args) >= 2 or endless, file=fi.file, line=n.lineno,
                        function=fi.qualname, expected="next(it, default)", found=unparse(n))
     rep.floor("next() call sites", nn, 0)
     # (v) file-system calls on the source text
